@@ -1,4 +1,437 @@
-//! C12 stack-level part (E3); filled in with the world explorer.
-use mc_core::{Report, Tier};
+//! C12 stack-level part (E3).
+//!
+//! (a) pubsub-histories: every script over {subscribe t, unsubscribe t, publish m (single or
+//!     multipart)} on a real PUB and a real SUB connected over the ZMTP session path or inproc,
+//!     against the two-line reference (some active subscription is a byte-prefix of the first frame).
+//! (b) subscriber-isolation: one PUB, 2-3 SUBs of which one does not read / is stalled / vanishes /
+//!     is stuck in the handshake; the publisher must never block and the healthy subscribers must
+//!     receive everything, in order, without duplicates.
 
-pub fn add_world_subs(_rep: &mut Report, _tier: Tier) {}
+use crate::stack::{self, msg};
+use mc_core::par::{self, Case};
+use mc_core::world::{self, settle_n, Way};
+use mc_core::{Report, Sub, Tier};
+use rzmq::socket::options as o;
+use rzmq::{Context, Socket, SocketType};
+use serde_json::{json, Value};
+use std::collections::BTreeMap;
+use std::time::Duration;
+use tokio::time::Instant;
+
+const TOPICS: [&[u8]; 4] = [b"", b"a", b"ab", &[0x00]];
+const FIRST: [&[u8]; 5] = [b"", b"a", b"ab", b"b", &[0x00, 0x01]];
+
+#[derive(Clone, Copy, Debug, PartialEq, Eq, Hash)]
+enum Ev {
+  Sub(usize),
+  Unsub(usize),
+  /// publish FIRST[i]; multipart adds two more frames (the second one matching every topic, to show
+  /// that only the first frame is filtered on)
+  Pub(usize, bool),
+}
+
+#[derive(Clone, Copy, Debug, PartialEq, Eq, Hash)]
+enum Tr {
+  Zmtp,
+  Inproc,
+}
+
+#[derive(Debug, Default, Clone)]
+struct HOut {
+  /// per Pub event: what the subscriber got for it (frames), in arrival order
+  got: Vec<Vec<Vec<u8>>>,
+  want: Vec<Vec<Vec<u8>>>,
+  send_errors: Vec<String>,
+}
+
+fn history_world(tr: Tr, script: &[Ev]) -> world::WorldResult<HOut> {
+  let script = script.to_vec();
+  world::run(1, move || async move {
+    let ctx = Context::new().expect("context");
+    let p = stack::mk(&ctx, SocketType::Pub, &[(o::LINGER, 0), (o::SNDTIMEO, 100)]).await;
+    let s = stack::mk(&ctx, SocketType::Sub, &[(o::LINGER, 0), (o::RCVTIMEO, 20)]).await;
+    let link = match tr {
+      Tr::Zmtp => Some(stack::link_pair(&s, &p, 1 << 16).await),
+      Tr::Inproc => {
+        p.bind("inproc://c12").await.expect("bind");
+        s.connect("inproc://c12").await.expect("connect");
+        None
+      }
+    };
+    settle_n(6).await;
+    let mut out = HOut::default();
+    let mut subs: BTreeMap<Vec<u8>, usize> = BTreeMap::new();
+    let mut seq = 0u32;
+    for e in &script {
+      match *e {
+        Ev::Sub(i) => {
+          s.set_option(o::SUBSCRIBE, TOPICS[i]).await.expect("subscribe");
+          *subs.entry(TOPICS[i].to_vec()).or_insert(0) += 1;
+        }
+        Ev::Unsub(i) => {
+          // unsubscribing something never subscribed must change nothing (an error return is fine)
+          let _ = s.set_option(o::UNSUBSCRIBE, TOPICS[i]).await;
+          let c = subs.entry(TOPICS[i].to_vec()).or_insert(0);
+          *c = c.saturating_sub(1);
+        }
+        Ev::Pub(i, mp) => {
+          seq += 1;
+          let mut first = FIRST[i].to_vec();
+          // make every message unique without changing which topics match: append after the topic bytes
+          first.extend_from_slice(format!("#{}", seq).as_bytes());
+          let frames: Vec<Vec<u8>> = if mp { vec![first.clone(), b"ab-second-frame".to_vec(), vec![]] } else { vec![first.clone()] };
+          let r = if mp {
+            let n = frames.len();
+            p.send_multipart(frames.iter().enumerate().map(|(k, f)| msg(f, k + 1 < n)).collect()).await
+          } else {
+            p.send(msg(&first, false)).await
+          };
+          if let Err(e) = r {
+            out.send_errors.push(e.to_string());
+          }
+          if subs.iter().any(|(t, c)| *c > 0 && first.starts_with(t)) {
+            out.want.push(frames);
+          }
+        }
+      }
+      settle_n(4).await;
+      // drain what arrived
+      loop {
+        match s.recv_multipart().await {
+          Ok(fr) => out.got.push(fr.iter().map(|m| m.data().unwrap_or(&[]).to_vec()).collect()),
+          Err(_) => break,
+        }
+      }
+    }
+    if let Some(l) = &link {
+      l.destroy();
+    }
+    let _ = tokio::time::timeout(Duration::from_secs(30), ctx.term()).await;
+    out
+  })
+}
+
+fn scripts(depth: usize) -> Vec<Vec<Ev>> {
+  let mut alpha = vec![];
+  for i in 0..TOPICS.len() {
+    alpha.push(Ev::Sub(i));
+  }
+  for i in 0..TOPICS.len() {
+    alpha.push(Ev::Unsub(i));
+  }
+  for i in 0..FIRST.len() {
+    alpha.push(Ev::Pub(i, false));
+  }
+  alpha.push(Ev::Pub(1, true));
+  alpha.push(Ev::Pub(3, true));
+  let mut out = vec![];
+  let mut level: Vec<Vec<Ev>> = vec![vec![]];
+  for d in 0..depth {
+    let mut next = vec![];
+    for s in &level {
+      for a in &alpha {
+        // the last event of a script is always a publication (anything else is unobservable)
+        if d + 1 == depth && !matches!(a, Ev::Pub(..)) {
+          continue;
+        }
+        let mut s2 = s.clone();
+        s2.push(*a);
+        next.push(s2);
+      }
+    }
+    level = next;
+  }
+  out.extend(level);
+  out
+}
+
+fn histories_sub(tier: Tier) -> Sub {
+  let mut sub = Sub::new("pubsub-histories", "E3");
+  let depth = tier.pick(4, 5);
+  sub.rule = "case = one world per script of exactly `depth` events over {subscribe/unsubscribe one of 4 topics, publish one of 5 first frames as a single frame, publish 2 of them as a 3-frame message} x transport, each event followed by quiescence; non-trivial = some subscription was active when something was published; oracle: the SUB application receives exactly the publications whose first frame has an active subscription as a byte-prefix, whole, in publication order, once".into();
+  let sc = scripts(depth);
+  let mut work = vec![];
+  for tr in [Tr::Zmtp, Tr::Inproc] {
+    for i in 0..sc.len() {
+      work.push((tr, i));
+    }
+  }
+  sub.bounds = json!({"depth": depth, "scripts": sc.len(), "worlds": work.len(), "topics": TOPICS.len(), "first_frames": FIRST.len()});
+  par::enumerate(&mut sub, work.len(), |k| {
+    let (tr, i) = work[k];
+    let script = &sc[i];
+    let r = history_world(tr, script);
+    let wit = json!({"explorer": "e3", "sub": "pubsub-histories", "transport": format!("{:?}", tr), "script": format!("{:?}", script)});
+    let mut c = Case { steps: script.len() as u64, ..Default::default() };
+    let class = format!("{:?}", tr);
+    for p in &r.panics {
+      c.violations.push(("panic".into(), p.rsplit(" @ ").next().map(mc_core::short_loc).unwrap_or_default(), p.clone(), wit.clone()));
+    }
+    if let Some(o) = r.result {
+      c.nontrivial = !o.want.is_empty();
+      c.outcome = mc_core::digest(&(o.want.len(), o.got.len()));
+      c.state = mc_core::digest(&(k, o.got.len()));
+      if !o.send_errors.is_empty() {
+        c.violations.push(("publisher-send-failed".into(), class.clone(), format!("{:?}", o.send_errors), wit.clone()));
+      }
+      if o.got != o.want {
+        let show = |v: &Vec<Vec<Vec<u8>>>| v.iter().map(|m| m.iter().map(|f| String::from_utf8_lossy(f).to_string()).collect::<Vec<_>>()).collect::<Vec<_>>();
+        let clause = if o.got.len() < o.want.len() {
+          "matching-message-not-delivered"
+        } else if o.got.len() > o.want.len() {
+          "non-matching-or-duplicate-message-delivered"
+        } else {
+          "delivered-messages-differ"
+        };
+        c.violations.push((clause.into(), class.clone(), format!("delivered {:?}, reference {:?}", show(&o.got), show(&o.want)), wit.clone()));
+      }
+    }
+    c
+  });
+  sub
+}
+
+// ------------------------------------------------------------------------------------------------
+// (b) isolation
+// ------------------------------------------------------------------------------------------------
+
+#[derive(Clone, Copy, Debug, PartialEq, Eq, Hash)]
+enum Bad {
+  /// application never calls recv
+  NotReading,
+  /// network towards it stops moving after the handshake
+  LinkStalled,
+  /// connection cut in the middle of the publications
+  Vanishes,
+  /// never gets past the first bytes of the handshake
+  HandshakeHeld,
+  /// inproc peer whose application never reads
+  InprocNotReading,
+}
+
+#[derive(Clone, Copy, Debug)]
+struct Iso {
+  bad: Bad,
+  hwm: i32,
+  n: usize,
+  size: usize,
+  healthy_inproc: bool,
+  two_healthy: bool,
+  /// SNDTIMEO of the publisher (-1 = the default)
+  sndtimeo: i32,
+}
+
+#[derive(Debug, Default, Clone)]
+struct IOut {
+  slowest_send_ms: u64,
+  send_errors: usize,
+  healthy_got: Vec<Vec<u32>>,
+  corrupt: bool,
+}
+
+fn iso_world(c: Iso) -> world::WorldResult<IOut> {
+  world::run(1, move || async move {
+    let ctx = Context::new().expect("context");
+    let p = stack::mk(&ctx, SocketType::Pub, &[(o::LINGER, 0), (o::SNDHWM, c.hwm)]).await;
+    if c.sndtimeo != -1 {
+      p.set_option(o::SNDTIMEO, c.sndtimeo).await.expect("sndtimeo");
+    }
+    p.bind("inproc://c12-iso").await.expect("bind");
+    let mut links = vec![];
+    let mk_sub = |rcvhwm: i32| {
+      let ctx = ctx.clone();
+      async move {
+        let s = stack::mk(&ctx, SocketType::Sub, &[(o::LINGER, 0), (o::RCVTIMEO, 20), (o::RCVHWM, rcvhwm)]).await;
+        s.set_option(o::SUBSCRIBE, &b""[..]).await.expect("subscribe");
+        s
+      }
+    };
+    // healthy subscribers
+    let mut healthy: Vec<Socket> = vec![];
+    for _ in 0..(if c.two_healthy { 2 } else { 1 }) {
+      let s = mk_sub(100_000).await;
+      if c.healthy_inproc {
+        s.connect("inproc://c12-iso").await.expect("connect");
+      } else {
+        links.push(stack::link_pair(&s, &p, 1 << 16).await);
+      }
+      healthy.push(s);
+    }
+    // the bad one
+    let bad = mk_sub(c.hwm).await;
+    let mut bad_link = None;
+    match c.bad {
+      Bad::InprocNotReading => bad.connect("inproc://c12-iso").await.expect("connect"),
+      Bad::HandshakeHeld => {
+        let (s_end, la) = tokio::io::duplex(256);
+        let (lb, p_end) = tokio::io::duplex(256);
+        let l = world::Link::spawn(la, lb);
+        l.hold_both();
+        l.allow(Way::AtoB, 12);
+        l.allow(Way::BtoA, 12);
+        let (u1, u2) = (stack::fresh_uri(), stack::fresh_uri());
+        rzmq::verif::session::attach_stream(&bad, s_end, false, &u1, &u1).await;
+        rzmq::verif::session::attach_stream(&p, p_end, true, &u2, &u2).await;
+        bad_link = Some(l);
+      }
+      _ => {
+        // small stream buffers so that a stalled network really backs up
+        let l = stack::link_pair(&bad, &p, 512).await;
+        bad_link = Some(l);
+      }
+    }
+    settle_n(8).await;
+    if let (Bad::LinkStalled, Some(l)) = (c.bad, &bad_link) {
+      l.stall(Way::BtoA, true);
+    }
+    let mut out = IOut::default();
+    out.healthy_got = vec![vec![]; healthy.len()];
+    for i in 0..c.n {
+      if let (Bad::Vanishes, Some(l)) = (c.bad, &bad_link) {
+        if i == c.n / 2 {
+          l.cut();
+        }
+      }
+      let mut body = crate::common::payload(i as u32 + 1, c.size.max(8));
+      body[..4].copy_from_slice(&(i as u32).to_be_bytes());
+      let t = Instant::now();
+      let r = tokio::time::timeout(Duration::from_secs(3600), p.send(msg(&body, false))).await;
+      let ms = t.elapsed().as_millis() as u64;
+      out.slowest_send_ms = out.slowest_send_ms.max(ms);
+      if !matches!(r, Ok(Ok(()))) {
+        out.send_errors += 1;
+      }
+      settle_n(2).await;
+      // healthy subscribers read promptly
+      for (k, h) in healthy.iter().enumerate() {
+        while let Ok(m) = h.recv().await {
+          let d = m.data().unwrap_or(&[]).to_vec();
+          if d.len() < 4 {
+            out.corrupt = true;
+            continue;
+          }
+          let seq = u32::from_be_bytes(d[..4].try_into().unwrap());
+          let mut want = crate::common::payload(seq + 1, d.len());
+          want[..4].copy_from_slice(&seq.to_be_bytes());
+          if want != d {
+            out.corrupt = true;
+          }
+          out.healthy_got[k].push(seq);
+        }
+      }
+    }
+    for l in &links {
+      l.destroy();
+    }
+    if let Some(l) = &bad_link {
+      l.destroy();
+    }
+    drop(bad);
+    let _ = tokio::time::timeout(Duration::from_secs(30), ctx.term()).await;
+    out
+  })
+}
+
+fn iso_cells(tier: Tier) -> Vec<Iso> {
+  let mut v = vec![];
+  for bad in [Bad::NotReading, Bad::LinkStalled, Bad::Vanishes, Bad::HandshakeHeld, Bad::InprocNotReading] {
+    for hwm in [1, 4, 1000] {
+      for (n, size) in [(1usize, 8usize), (12, 8), (60, 300), (12, 70_000)] {
+        if tier == Tier::Quick && hwm == 1000 && size == 70_000 {
+          continue;
+        }
+        for healthy_inproc in [false, true] {
+          for two_healthy in [false, true] {
+            if tier == Tier::Quick && two_healthy && (size != 300) {
+              continue;
+            }
+            for sndtimeo in [-1, 0, 100] {
+              if sndtimeo != -1 && (two_healthy || (tier == Tier::Quick && size == 70_000)) {
+                continue;
+              }
+              v.push(Iso { bad, hwm, n, size, healthy_inproc, two_healthy, sndtimeo });
+            }
+          }
+        }
+      }
+    }
+  }
+  v
+}
+
+fn isolation_sub(tier: Tier) -> Sub {
+  let mut sub = Sub::new("subscriber-isolation", "E3");
+  sub.rule = "case = one world per (bad-subscriber kind x HWM x publications x size x healthy transport x 1-2 healthy subscribers x publisher SNDTIMEO in {-1, 0, 100 ms}) cell: a PUB with healthy subscribers that read after every publication and one subscriber that does not read / whose network is stalled / that vanishes half-way / that is stuck in the handshake; non-trivial = more publications than the bad subscriber's queues hold; oracle: every PUB send returns Ok within 50 ms virtual, each healthy subscriber receives all publications in order, once, intact".into();
+  let list = iso_cells(tier);
+  sub.bounds = json!({"cells": list.len(), "hwm": [1, 4, 1000], "publications": [1, 12, 60], "sizes": [8, 300, 70000]});
+  par::enumerate(&mut sub, list.len(), |i| {
+    let c = list[i];
+    let r = iso_world(c);
+    let wit = json!({"explorer": "e3", "sub": "subscriber-isolation", "cell": format!("{:?}", c)});
+    let class = format!("{:?}:healthy-{}:sndtimeo{}", c.bad, if c.healthy_inproc { "inproc" } else { "zmtp" }, c.sndtimeo);
+    let mut case = Case { steps: c.n as u64 + 3, nontrivial: c.n > 2 * c.hwm as usize, ..Default::default() };
+    for p in &r.panics {
+      case.violations.push(("panic".into(), p.rsplit(" @ ").next().map(mc_core::short_loc).unwrap_or_default(), p.clone(), wit.clone()));
+    }
+    if let Some(o) = r.result {
+      case.outcome = mc_core::digest(&(o.slowest_send_ms > 0, o.send_errors, o.healthy_got.iter().map(|g| g.len()).collect::<Vec<_>>()));
+      case.state = mc_core::digest(&(i, o.slowest_send_ms));
+      if o.slowest_send_ms > 50 {
+        case.violations.push(("publisher-blocked-by-subscriber".into(), class.clone(), format!("a PUB send took {} ms virtual (HWM {}, {} publications of {} bytes)", o.slowest_send_ms, c.hwm, c.n, c.size), wit.clone()));
+      }
+      if o.send_errors > 0 {
+        case.violations.push(("publisher-send-failed".into(), class.clone(), format!("{} of {} PUB sends returned an error or never returned", o.send_errors, c.n), wit.clone()));
+      }
+      let want: Vec<u32> = (0..c.n as u32).collect();
+      for (k, g) in o.healthy_got.iter().enumerate() {
+        if *g != want {
+          case.violations.push(("healthy-subscriber-missed-or-reordered".into(), class.clone(), format!("healthy subscriber {} received {} of {} publications: {:?}", k, g.len(), c.n, g.iter().take(20).collect::<Vec<_>>()), wit.clone()));
+          break;
+        }
+      }
+      if o.corrupt {
+        case.violations.push(("corrupted-message".into(), class.clone(), "a healthy subscriber received a message that does not match what was published".into(), wit.clone()));
+      }
+      if i % 37 == 0 {
+        case.sample = Some(json!({"cell": format!("{:?}", c), "slowest_send_ms_virtual": o.slowest_send_ms, "healthy_received": o.healthy_got.iter().map(|g| g.len()).collect::<Vec<_>>()}));
+      }
+    }
+    case
+  });
+  sub
+}
+
+pub fn add_world_subs(rep: &mut Report, tier: Tier) {
+  rep.assume("E3: events of a pub/sub history are separated by quiescence, so 'when the message reaches the subscriber' is the subscription set at publication time; healthy subscribers have a large RCVHWM and read after every publication");
+  rep.add(histories_sub(tier));
+  rep.add(isolation_sub(tier));
+}
+
+pub fn replay(w: &Value) -> Result<String, String> {
+  if w["sub"] == "pubsub-histories" {
+    let tr = if w["transport"] == "Zmtp" { Tr::Zmtp } else { Tr::Inproc };
+    for d in [4usize, 5] {
+      if let Some(sc) = scripts(d).into_iter().find(|s| w["script"] == format!("{:?}", s)) {
+        let r = history_world(tr, &sc);
+        if !r.panics.is_empty() {
+          return Err(format!("panics: {:?}", r.panics));
+        }
+        let o = r.result.ok_or("world did not finish")?;
+        return if o.got == o.want && o.send_errors.is_empty() { Ok("delivered == reference".into()) } else { Err(format!("{:?}", o)) };
+      }
+    }
+    return Err("script not found".into());
+  }
+  let c = iso_cells(Tier::Thorough).into_iter().find(|c| w["cell"] == format!("{:?}", c)).ok_or("cell not found")?;
+  let r = iso_world(c);
+  if !r.panics.is_empty() {
+    return Err(format!("panics: {:?}", r.panics));
+  }
+  let o = r.result.ok_or("world did not finish")?;
+  let want: Vec<u32> = (0..c.n as u32).collect();
+  if o.slowest_send_ms <= 50 && o.send_errors == 0 && o.healthy_got.iter().all(|g| *g == want) && !o.corrupt {
+    Ok(format!("no violation: {:?}", (o.slowest_send_ms, o.send_errors)))
+  } else {
+    Err(format!("slowest_send_ms={} send_errors={} healthy_got={:?}", o.slowest_send_ms, o.send_errors, o.healthy_got.iter().map(|g| g.len()).collect::<Vec<_>>()))
+  }
+}
